@@ -669,12 +669,80 @@ def slot_key_rule(ctx):
                witness=None if ok else "<div slot:b=\"c\">{{ c }}</div>: the scope of `c` is never pushed and the generator indexes past its scope stack")]
 
 
+def wave8_rules(ctx):
+    """obligations added after the eighth wave of seeded changes"""
+    import guards as G
+    ob = ctx.ob
+    tc = ctx.tc
+    obs = []
+    # (1) every value of an element reaches scope resolution (shared with C07.values)
+    from rules.c07 import values_rule
+    for x in values_rule(ctx):
+        x = dict(x)
+        x["key"] = x["key"].replace("C07.values", "C05.visit/values")
+        obs.append(x)
+    # (2) the generator pushes one scope per <wxs> module, whatever the module contains: nothing in the loop skips the push
+    tg = [f for f in tc.fns if f.base == "Template" and f.name == "to_proc_gen" and f.body]
+    if tg:
+        f = tg[0]
+        loops = [n for n in sir.walk(f.body) if n.get("k") == "for" and mentions(n["e"], "scripts") and any(is_mcall(x, "push", "scopes") for x in sir.walk(n["body"]))]
+        if loops:
+            lp = loops[0]
+            gs = G.guards_of(lp["body"])
+            skips = [x.get("k") for x in sir.walk(lp["body"], into_closures=False) if x.get("k") in ("continue", "break")]
+            conds = []
+            for x in sir.walk(lp["body"]):
+                if is_mcall(x, "push", "scopes"):
+                    conds += [sir.expr_str(subj)[:50] for kind, subj, pol in gs.get(id(x), []) if kind == "cond"]
+            ok = not skips and not conds
+            obs.append(ob("C05.mirror/gen/start/every-module", ok, ctx.where(f), "one scope is pushed for every module of the file" if ok else "the push can be skipped (%s%s)" % (", ".join(skips), (" under " + "; ".join(conds)) if conds else ""),
+                          witness=None if ok else "an empty <wxs module=\"a\"/> shifts every later module and loop variable by one scope"))
+    # (3) Element::slot_value_refs yields the refs of every element kind that can carry them
+    sv = [f for f in tc.fns if f.base == "Element" and f.name == "slot_value_refs" and f.body]
+    ek = tc.enum("ElementKind")
+    cs = tc.struct("CommonElementAttributes")
+    if sv and ek:
+        common_has = bool(cs) and any(fl.get("name") == "slot_value_refs" for fl in cs.get("fields", []))
+        carriers = set()
+        for v in ek["variants"]:
+            names = [fl.get("name") for fl in v.get("fields", [])]
+            if "slot_value_refs" in names or ("common" in names and common_has):
+                carriers.add(v["name"])
+        yielding = set()
+        for a in sir.walk(sv[0].body):
+            if a.get("k") == "arm" and any((x.get("k") == "field" and x["name"] == "slot_value_refs") or (x.get("k") == "path" and x["segs"][-1] == "slot_value_refs") for x in sir.walk(a["body"])):
+                yielding |= set(sir.pat_variants(a["pat"]))
+        missing = sorted(carriers - yielding)
+        obs.append(ob("C05.visit/slot-value-refs", not missing and bool(carriers), ctx.where(sv[0]), "slot-value references are reported for %s" % sorted(yielding) if not missing else "%s carry slot-value references that are never reported: no scope is introduced for them on either side" % missing,
+                      witness=None if not missing else "<block slot:a>{{a}}</block> reads the data field `a`"))
+    # (4) a re-declared module / template name is looked for in the whole list
+    ep = [f for f in tc.fns if f.base == "Element" and f.name == "parse" and f.body]
+    if ep:
+        bad, n_ = [], 0
+        for n in sir.walk(ep[0].node, into_items=True):
+            if n.get("k") == "mcall" and n["m"] in ("find", "any", "position", "filter", "all") and n["args"] and n["args"][0].get("k") == "closure" and any(y.get("k") == "mcall" and y["m"] == "name_eq" for y in sir.walk(n["args"][0]["body"])):
+                chain, r_ = [], n["recv"]
+                while r_.get("k") == "mcall":
+                    chain.append(r_["m"])
+                    r_ = r_["recv"]
+                root = sir.expr_str(r_)
+                if "scripts" in root or "sub_templates" in root or "scripts" in sir.expr_str(n["recv"]) or "sub_templates" in sir.expr_str(n["recv"]):
+                    n_ += 1
+                    narrow = [m_ for m_ in chain if m_ in ("last", "first", "get", "nth", "take", "skip", "rev") and m_ != "rev"]
+                    if narrow or n["m"] == "filter":
+                        bad.append("%s.%s..%s" % (root, ".".join(reversed(chain)), n["m"]))
+        obs.append(ob("C05.names/duplicate-search", (not bad) if (bad or n_ >= 2) else None, ctx.where(ep[0]), "%d duplicate-name checks search the whole list" % n_ if not bad else "a duplicate-name check looks at part of the list only: %s" % bad,
+                      witness=None if not bad else "<wxs module=m/><wxs module=n/><wxs module=m/>: both `m` are registered, the name denotes the second"))
+    return obs
+
+
 def run(ctx):
     obs, _model, _its = check_iterators(ctx)
     obs += check_mirror(ctx)
     obs += check_innermost(ctx)
     obs += dedup_key_rule(ctx)
     obs += slot_key_rule(ctx)
+    obs += wave8_rules(ctx)
     n_children = sum(1 for o in obs if o["key"].startswith("C05.children/"))
     if n_children < 88:
         obs.append(ctx.ob("C05.floor/children", False, "parse/expr.rs", "only %d variant x iterator obligations (floor 88 = 44 variants x 2 iterators)" % n_children))
